@@ -37,6 +37,7 @@ func runC03(e *Env) {
 		return
 	}
 	p := m.p
+	checkPolicyReadOnly(e, p, "E1.readonly")
 	checkMerge(e, m)
 	checkCondSources(e, m)
 	for _, pr := range m.frag.Problems {
